@@ -94,7 +94,7 @@ Example C06_example :
 Proof. vm_compute. reflexivity. Qed.
 
 (* ---- binary64: deviation of the returned segment from the exact construction ---- *)
-Require Import PP.ErrorBound PP.ErrorRun PP.PolyFacts PP.Proofs.KernelBounds.
+Require Import PP.ErrorBound PP.ErrorRun PP.SafeDec PP.PolyFacts PP.Proofs.KernelBounds.
 Definition lin_e (i : nat) : expr := nth i k_linear__segment (Lit 0).
 (* safe_run additionally requires that the binary64 test `dx < EPSILON` and the exact one agree (otherwise both
    branches are within the bound of each other only up to dx ~ eps, which the property excludes by its gap condition) *)
@@ -117,3 +117,8 @@ Proof.
     by (apply Rmult_le_compat_r; [apply Rabs_pos|exact E2]).
   lra.
 Qed.
+
+(* non-vacuity: the knots (0.3, 1.0), (2.1, 3.6) satisfy the hypotheses of C06_segment_float *)
+Example C06_float_hypotheses_hold :
+  let env := map of_bits [4599075939470750515; 4607182418800017408; 4611911198408756429; 4615288898129284301]%Z in safe_run env (lin_e 1) /\ safe_run env (lin_e 2).
+Proof. cbv zeta. split; apply srun_sound; vm_compute; reflexivity. Qed.
